@@ -612,6 +612,8 @@ def proc_pieces(node) -> list:
         if f:
             return ["x:" + f]
     if isinstance(node, ast.BinOp) and isinstance(node.op, ast.Add):
+        if isinstance(node.left, ast.Starred) or isinstance(node.right, ast.Starred):
+            return ["?starred_operand_of_+"]   # a starred part is an element of the argument's tuple, never an operand (no such expression exists)
         return proc_pieces(node.left) + proc_pieces(node.right)
     if isinstance(node, ast.Tuple):
         out = []
